@@ -250,4 +250,6 @@ def check(run):
     run.clause('the next client is accepted: re-arming the accept re-examines connections that were queued while the server was busy (shared with C06/C07)')
     import p06
     p06.accept_queue_rules(run)
+    import p07 as _p07
+    _p07.abandoned_connect_rules(run)
     run.floor('R4', 4)
